@@ -49,7 +49,7 @@ def _run_contract(args):
             repo.set_source_override(override[0], override[1])
         cds = load_contracts(pid)
         cd = cds[idx]
-        res = harness.verify_contract_safe(cd, timeout_ms)
+        res = harness.verify_contract_safe(cd, timeout_ms, stop_on_refuted=bool(override))
         return _res_to_dict(res)
     except Exception as e:  # pragma: no cover
         return {"prop": pid, "name": f"#{idx}", "status": "error", "reason": f"{type(e).__name__}: {e}\n{traceback.format_exc()[-1200:]}", "obligations": [], "functions": [], "paths": 0, "inlined": [], "trusted": [], "summaries": [], "wall_s": 0, "undecided_branches": 0}
@@ -67,13 +67,78 @@ def _res_to_dict(res):
     return d
 
 
-def run_contracts(pid, idxs, timeout_ms, jobs, override=None):
-    tasks = [(pid, i, timeout_ms, override) for i in idxs]
-    if jobs <= 1 or len(tasks) <= 1:
-        return [_run_contract(t) for t in tasks]
+def _child(conn, task):
+    try:
+        conn.send(_run_contract(task))
+    except Exception as e:  # pragma: no cover
+        try:
+            conn.send({"prop": task[0], "name": f"#{task[1]}", "status": "error", "reason": f"{type(e).__name__}: {e}", "obligations": [], "functions": [], "paths": 0, "inlined": [], "trusted": [], "summaries": [], "wall_s": 0, "undecided_branches": 0})
+        except Exception:
+            pass
+    finally:
+        conn.close()
+
+
+def run_tasks(tasks, jobs, hard_timeout_s):
+    """One forked process per task, at most ``jobs`` at a time, each killed after ``hard_timeout_s`` of wall clock
+    (z3 does not always honour its own timeout).  A killed or crashed task yields status 'unsupported' (undecided),
+    never a violation."""
     ctx = mp.get_context("fork")
-    with ctx.Pool(min(jobs, len(tasks))) as pool:
-        return pool.map(_run_contract, tasks, chunksize=1)
+    results = [None] * len(tasks)
+    pending = list(enumerate(tasks))
+    running = {}
+    while pending or running:
+        while pending and len(running) < max(1, jobs):
+            i, t = pending.pop(0)
+            pr, pw = ctx.Pipe(duplex=False)
+            p = ctx.Process(target=_child, args=(pw, t))
+            p.daemon = True
+            p.start()
+            pw.close()
+            running[i] = (p, pr, time.time(), t)
+        done = []
+        for i, (p, pr, t0, t) in running.items():
+            got = None
+            try:
+                if pr.poll(0):
+                    got = pr.recv()
+            except (EOFError, OSError):
+                got = None
+                if not p.is_alive():
+                    got = {"_dead": True}
+            if got is None and not p.is_alive() and not pr.poll(0):
+                got = {"_dead": True}
+            if got is None and time.time() - t0 > hard_timeout_s:
+                p.terminate()
+                got = {"_timeout": True}
+            if got is not None:
+                if got.get("_dead") or got.get("_timeout"):
+                    why = "hard wall-clock limit reached (solver did not return)" if got.get("_timeout") else "worker process died"
+                    got = {"prop": t[0], "name": f"#{t[1]}", "status": "unsupported", "reason": why, "obligations": [], "functions": [], "paths": 0, "inlined": [], "trusted": [], "summaries": [], "wall_s": round(time.time() - t0, 1), "undecided_branches": 0, "_task": t[1]}
+                results[i] = got
+                done.append(i)
+        for i in done:
+            p, pr, _t0, _t = running.pop(i)
+            try:
+                pr.close()
+            except Exception:
+                pass
+            p.join(timeout=1)
+        if not done:
+            time.sleep(0.05)
+    return results
+
+
+def run_contracts(pid, idxs, timeout_ms, jobs, override=None, hard_timeout_s=None):
+    tasks = [(pid, i, timeout_ms, override) for i in idxs]
+    if hard_timeout_s is None:
+        hard_timeout_s = 420 if timeout_ms <= 10000 else 2400
+    res = run_tasks(tasks, jobs, hard_timeout_s)
+    cds = load_contracts(pid)
+    for r, t in zip(res, tasks):
+        if r.get("name", "").startswith("#"):
+            r["name"] = cds[t[1]].name
+    return res
 
 
 # ----------------------------------------------------------------------- known findings
@@ -436,9 +501,10 @@ def run_mutants(pid, cds, muts, timeout_ms, jobs, base_results):
         for i in idxs:
             flat.append((ti, (pid, i, timeout_ms, (m["file"], new))))
     if flat:
-        ctx = mp.get_context("fork")
-        with ctx.Pool(min(jobs, len(flat))) as pool:
-            outs = pool.map(_run_contract, [f[1] for f in flat], chunksize=1)
+        outs = run_tasks([f[1] for f in flat], jobs, 150)
+        for o, f in zip(outs, flat):
+            if o.get("name", "").startswith("#"):
+                o["name"] = cds[f[1][1]].name
     else:
         outs = []
     per = {}
